@@ -346,3 +346,40 @@ Proof.
     + specialize (Hc FBase 1 (or_introl eq_refl)). discriminate.
 Qed.
 
+
+(* non-vacuity of charge_single_schedule: WITH the lock, an execution that overlaps SetNewGasConfig(sched_b) — the
+   setter is called while the execution is between its two reads and has to wait — reads both fields from
+   sched_a; the setter then installs sched_b completely *)
+Example locked_execution_overlapping_setter :
+  exists l s, sys_reach gstate gstep (lock_init, ginit sched_a) (l, s)
+    /\ gpcs s 0%nat = EOut [(FBase, 1); (FStorePerByte, 1)]
+    /\ gpcs s 1%nat = SOut
+    /\ consistent [(FBase, 1); (FStorePerByte, 1)] sched_a
+    /\ hist s = [sched_b; sched_a] /\ (forall f, fields s f = sched_b f).
+Proof.
+  eexists. eexists. split; [|split; [|split; [|split; [|split]]]].
+  - eapply sr_step. eapply sr_step. eapply sr_step. eapply sr_step. eapply sr_step. eapply sr_step.
+    eapply sr_step. eapply sr_step. eapply sr_step. eapply sr_step. eapply sr_step. eapply sr_step. apply sr_refl.
+    + cbn [fields cur hist gpcs]. eapply ss_tau. apply (g_exec_call _ 0%nat [FBase; FStorePerByte]). reflexivity.
+    + cbn [fields cur hist gpcs]. eapply ss_lock. apply (g_exec_rlock _ 0%nat [FBase; FStorePerByte]). reflexivity. apply ls_rlock. reflexivity.
+    + cbn [fields cur hist gpcs]. eapply ss_tau. apply (g_exec_read _ 0%nat FBase [FStorePerByte] []). reflexivity.
+    + cbn [fields cur hist gpcs]. eapply ss_tau. apply (g_set_call _ 1%nat sched_b). reflexivity.
+    + cbn [fields cur hist gpcs]. eapply ss_tau. apply (g_exec_read _ 0%nat FStorePerByte [] [(FBase, 1)]). reflexivity.
+    + cbn [fields cur hist gpcs]. eapply ss_lock. apply (g_exec_runlock _ 0%nat [] [(FBase, 1); (FStorePerByte, 1)]). reflexivity. apply ls_runlock.
+    + cbn [fields cur hist gpcs]. eapply ss_lock. apply (g_set_lock _ 1%nat sched_b). reflexivity. apply ls_wlock; reflexivity.
+    + cbn [fields cur hist gpcs]. eapply ss_tau. apply (g_set_write _ 1%nat sched_b FBase). reflexivity.
+    + cbn [fields cur hist gpcs]. eapply ss_tau. apply (g_set_write _ 1%nat sched_b FStorePerByte). reflexivity.
+    + cbn [fields cur hist gpcs]. eapply ss_tau. apply (g_set_write _ 1%nat sched_b FPersistPerByte). reflexivity.
+    + cbn [fields cur hist gpcs]. eapply ss_tau. apply (g_set_write _ 1%nat sched_b FDataCopyPerByte). reflexivity.
+    + cbn [fields cur hist gpcs]. eapply ss_lock. apply (g_set_unlock _ 1%nat sched_b). reflexivity. apply ls_wunlock.
+  - cbn [fields cur hist gpcs]. reflexivity.
+  - reflexivity.
+  - intros f v [H|[H|[]]]; inversion H; reflexivity.
+  - reflexivity.
+  - intros f. destruct f; reflexivity.
+Qed.
+
+(* while the execution holds the read lock the setter CANNOT take the write lock: the lock step is not enabled *)
+Example setter_blocked_while_executing l :
+  readers l <> [] -> forall t l', ~ lock_step t WLock l l'.
+Proof. intros Hr t l' H. inversion H; subst. contradiction. Qed.
